@@ -159,6 +159,24 @@ class _ToyModel(nn.Module):
         return torch.full((1, bsz, 1), 3.0, dtype=torch.float64)
 
 
+class _ToyTupleModel(nn.Module):
+    """an LSTM-like model: the state is a PAIR of tensors (h, c), both exact hashes of the whole prefix; the next h depends on c as well"""
+
+    def __init__(self):
+        super().__init__()
+        self._p = nn.Parameter(torch.zeros(1, dtype=torch.float64), requires_grad=False)
+
+    def forward(self, xs, hs):
+        h, c = hs
+        for i in range(xs.shape[1]):
+            x = xs[:, i].to(torch.float64).reshape(1, -1, 1)
+            h, c = torch.remainder(h * 5.0 + c * 3.0 + x + 1.0, 9973.0), torch.remainder(c * 7.0 + x * 2.0 + 5.0, 9941.0)
+        return None, (h, c)
+
+    def init_hidden(self, bsz):
+        return (torch.full((1, bsz, 1), 3.0, dtype=torch.float64), torch.full((1, bsz, 1), 11.0, dtype=torch.float64))
+
+
 class _ToyDecoder(nn.Module):
     def __init__(self, kind: int, vocab_size: int):
         super().__init__()
@@ -185,8 +203,8 @@ class ToyLM(nn.Module):
         for i, c in enumerate(letters):
             self.vocab[c] = i + 1
         self._unused_prefix_len = 1
-        self.model = _ToyModel([5.0, 7.0, 5.0, 5.0][kind])
-        self.decoder = _ToyDecoder(kind, len(letters) + 1)
+        self.model = _ToyTupleModel() if kind == 4 else _ToyModel([5.0, 7.0, 5.0, 5.0][kind])
+        self.decoder = _ToyDecoder(0 if kind == 4 else kind, len(letters) + 1)
 
 
 def make_lm_wrapper(kind, letters):
